@@ -42,9 +42,10 @@ let compOpp = function
 | Lt -> Gt
 | Gt -> Lt
 
-(** val add : int -> int -> int **)
-
-let rec add = (+)
+module Coq__1 = struct
+ (** val add : int -> int -> int **)let rec add = (+)
+end
+include Coq__1
 
 (** val mul : int -> int -> int **)
 
@@ -325,6 +326,27 @@ module Coq_Pos =
     | XH -> (match q with
              | XH -> true
              | _ -> false)
+
+  (** val iter_op : ('a1 -> 'a1 -> 'a1) -> positive -> 'a1 -> 'a1 **)
+
+  let rec iter_op op p a =
+    match p with
+    | XI p0 -> op a (iter_op op p0 (op a a))
+    | XO p0 -> iter_op op p0 (op a a)
+    | XH -> a
+
+  (** val to_nat : positive -> int **)
+
+  let to_nat x =
+    iter_op Coq__1.add x (Stdlib.Int.succ 0)
+
+  (** val of_succ_nat : int -> positive **)
+
+  let rec of_succ_nat n0 =
+    (fun fO fS n -> if n=0 then fO () else fS (n-1))
+      (fun _ -> XH)
+      (fun x -> succ (of_succ_nat x))
+      n0
  end
 
 module N =
@@ -422,6 +444,16 @@ let rec fold_left f l a0 =
   match l with
   | [] -> a0
   | b :: t0 -> fold_left f t0 (f a0 b)
+
+(** val combine : 'a1 list -> 'a2 list -> ('a1 * 'a2) list **)
+
+let rec combine l l' =
+  match l with
+  | [] -> []
+  | x :: tl ->
+    (match l' with
+     | [] -> []
+     | y :: tl' -> (x, y) :: (combine tl tl'))
 
 (** val seq : int -> int -> int list **)
 
@@ -594,6 +626,20 @@ module Z =
   | Zneg p -> Zpos p
   | x -> x
 
+  (** val to_nat : z -> int **)
+
+  let to_nat = function
+  | Zpos p -> Coq_Pos.to_nat p
+  | _ -> 0
+
+  (** val of_nat : int -> z **)
+
+  let of_nat n0 =
+    (fun fO fS n -> if n=0 then fO () else fS (n-1))
+      (fun _ -> Z0)
+      (fun n1 -> Zpos (Coq_Pos.of_succ_nat n1))
+      n0
+
   (** val of_N : n -> z **)
 
   let of_N = function
@@ -674,6 +720,11 @@ module Z =
 
   let quot a b =
     fst (quotrem a b)
+
+  (** val rem : z -> z -> z **)
+
+  let rem a b =
+    snd (quotrem a b)
  end
 
 type scalar = { s0 : __; s1 : __; sadd : (__ -> __ -> __);
@@ -1139,8 +1190,8 @@ type maska_t = int -> bool
 
 (** val make_maska : int -> int -> maska_t **)
 
-let make_maska w rem jj =
-  negb (Nat.ltb jj (sub w rem))
+let make_maska w rem0 jj =
+  negb (Nat.ltb jj (sub w rem0))
 
 (** val lane_on : int -> maska_t -> int -> bool **)
 
@@ -1277,8 +1328,8 @@ let tile_wr s w k n0 mulfirst a b r = function
        (if mulfirst
         then dot_mf s k av (fun kk -> b (add (mul kk n0) j))
         else dot_plain s k av (fun kk -> b (add (mul kk n0) j)))
-   | CMask rem ->
-     let m = make_maska w rem in
+   | CMask rem0 ->
+     let m = make_maska w rem0 in
      let bv = fun kk -> vmaskload s w m b (add (mul kk n0) j) in
      wr_maskstore s w m (add (mul r n0) j)
        (if mulfirst
@@ -1590,8 +1641,8 @@ let ttile_wr s w k n0 a b kf kl r = function
      wr_store1 s (add (mul r n0) j)
        (sum_from s kf (sub kl kf) (fun kk ->
          s.smul (av kk) (b (add (mul kk n0) j))) s.s0)
-   | CMask rem ->
-     let m = make_maska w rem in
+   | CMask rem0 ->
+     let m = make_maska w rem0 in
      wr_maskstore s w m (add (mul r n0) j)
        (vacc_from s kf (sub kl kf) av (fun kk ->
          vmaskload s w m b (add (mul kk n0) j)) (vzero s)))
@@ -2543,6 +2594,81 @@ let rec laplace n0 m =
 let det_spec n0 a =
   laplace n0 (fun i j -> a (add (mul i n0) j))
 
+(** val prod0 : int list -> int **)
+
+let rec prod0 = function
+| [] -> Stdlib.Int.succ 0
+| d :: ds -> mul d (prod0 ds)
+
+(** val unflat : int list -> int -> int list **)
+
+let rec unflat dims p =
+  match dims with
+  | [] -> []
+  | d :: ds -> (Nat.modulo (Nat.div p (prod0 ds)) d) :: (unflat ds p)
+
+type urange = { uf : z; ul : z; us : z }
+
+(** val norm1d : z -> urange -> urange **)
+
+let norm1d n0 r =
+  { uf = (if Z.ltb r.uf Z0 then Z.add (Z.add r.uf n0) (Zpos XH) else r.uf);
+    ul = (if Z.ltb r.ul Z0 then Z.add (Z.add r.ul n0) (Zpos XH) else r.ul);
+    us = r.us }
+
+(** val normnd : z -> urange -> urange **)
+
+let normnd n0 r =
+  if (&&) (Z.ltb r.ul Z0) (Z.leb Z0 r.uf)
+  then { uf = r.uf; ul = (Z.add (Z.add r.ul n0) (Zpos XH)); us = r.us }
+  else if (&&) (Z.eqb r.ul Z0) (Z.eqb r.uf (Zneg XH))
+       then { uf = (Z.sub n0 (Zpos XH)); ul = n0; us = r.us }
+       else if (&&) (Z.ltb r.ul Z0) (Z.ltb r.uf Z0)
+            then { uf = (Z.add (Z.add r.uf n0) (Zpos XH)); ul =
+                   (Z.add (Z.add r.ul n0) (Zpos XH)); us = r.us }
+            else r
+
+(** val rsize : urange -> z **)
+
+let rsize r =
+  let range = Z.sub r.ul r.uf in
+  if Z.eqb (Z.rem range r.us) Z0
+  then Z.quot range r.us
+  else Z.add (Z.quot range r.us) (Zpos XH)
+
+type nrange = { nfirst : int; nstep : int; nsize : int }
+
+(** val to_nrange : urange -> nrange **)
+
+let to_nrange r =
+  { nfirst = (Z.to_nat r.uf); nstep = (Z.to_nat r.us); nsize =
+    (Z.to_nat (rsize r)) }
+
+(** val vdims : nrange list -> int list **)
+
+let vdims v =
+  map (fun n0 -> n0.nsize) v
+
+(** val voffset : int list -> nrange list -> int list -> int **)
+
+let rec voffset pdims v j =
+  match pdims with
+  | [] -> 0
+  | _ :: ds ->
+    (match v with
+     | [] -> 0
+     | r :: rs ->
+       (match j with
+        | [] -> 0
+        | i :: is ->
+          add (mul (add r.nfirst (mul i r.nstep)) (prod0 ds))
+            (voffset ds rs is)))
+
+(** val view_off : int list -> nrange list -> int -> int **)
+
+let view_off pdims v i =
+  voffset pdims v (unflat (vdims v) i)
+
 (** val run_matmul_Z :
     cfg -> ety -> int -> int -> int -> z list -> z list -> z list **)
 
@@ -2679,3 +2805,36 @@ let run_det_Z n0 a =
          n2)
        n1)
      n0)
+
+(** val run_view :
+    bool -> int list -> ((z * z) * z) list -> int list * int list **)
+
+let run_view oned pdims rs =
+  let v =
+    map (fun dr ->
+      let (d, p) = dr in
+      let (p0, s) = p in
+      let (f, l) = p0 in
+      to_nrange
+        (if oned
+         then norm1d (Z.of_nat d) { uf = f; ul = l; us = s }
+         else normnd (Z.of_nat d) { uf = f; ul = l; us = s }))
+      (combine pdims rs)
+  in
+  ((vdims v), (map (view_off pdims v) (seq 0 (prod0 (vdims v)))))
+
+(** val run_admissible : bool -> int -> ((z * z) * z) -> bool **)
+
+let run_admissible oned d = function
+| (p, s) ->
+  let (f, l) = p in
+  let u =
+    if oned
+    then norm1d (Z.of_nat d) { uf = f; ul = l; us = s }
+    else normnd (Z.of_nat d) { uf = f; ul = l; us = s }
+  in
+  (&&)
+    ((&&)
+      ((&&) ((&&) (Z.leb Z0 u.uf) (Z.leb u.uf u.ul))
+        (Z.leb u.ul (Z.of_nat d))) (Z.leb (Zpos XH) u.us))
+    (Z.ltb u.uf (Z.of_nat d))
